@@ -48,15 +48,16 @@ from pbt.core import Result, silence, exc_sig
 
 ID = "C30"
 LEVEL = "exploration"
-EXAMPLES = {"quick": 256, "thorough": 5000}
-SHRINK_S = {"quick": 25, "thorough": 120}
-DEADLINE_S = {"quick": 240, "thorough": 3000}
+EXAMPLES = {"quick": 192, "thorough": 5000}
+SHRINK_S = {"quick": 10, "thorough": 60}
+DEADLINE_S = {"quick": 900, "thorough": 3000}
 RULE = ("Hypothesis draws 1-3 small network recipes (<=6 buses, all element kinds, optional x30/x300 load stress and "
-        "bus zones) and a history of 2-8 JSON operations (new Diagnostic with/without default functions, "
+        "bus zones) and a history of 3-10 JSON operations with >=2 calls (new Diagnostic with/without default functions, "
         "register_function of harness-defined echo/count functions or the documented library functions "
         "DeviationFromStdType/SlackGenPlacement/Overload/ImplausibleImpedanceValues with all/named/no kwargs, diagnose_network with 0-3 drawn options "
         "(diagnostic thresholds, documented docstring names, power-flow kwargs such as max_iteration=1, stateless "
         "`run` hooks that raise LoadflowNotConverged depending on the net state), the helper diagnostic(), report()); "
+        "a fifth of the histories ends with 'A diagnoses, B diagnoses with other thresholds, A reports'; "
         "a quarter of the histories is leak-free by construction on the unrepaired tree (options only in the last call, "
         "registrations only on instances without defaults). check interprets the list against real objects and an "
         "abstract model; after every step: module-level containers == pristine copies, a new instance has the pristine "
@@ -113,6 +114,11 @@ KW_WEIGHT = {"max_iteration": 5, "run": 4, "min_r_ohm": 3, "min_x_ohm": 3, "over
 PRESETS = [{"min_r_ohm": 5.0, "min_x_ohm": 5.0, "max_iteration": 1}, {"min_x_ohm": 1.0, "max_iteration": 2},
            {"min_r_ohm": 1.0, "run": "ok_if_switches_closed"}, {"max_r_ohm": 1.0, "max_x_ohm": 1.0, "max_iteration": 1},
            {"overload_scaling_factor": 0.5, "run": "ok_if_load_scaled"}, {"run": "ok_if_gen_scaled", "min_x_ohm": 5.0}]
+# (options of instance A, options of instance B) whose reports print the thresholds / factors that were used
+REPORT_PAIRS = [({"min_r_ohm": 1.0}, {"min_r_ohm": 5.0}), ({"min_x_ohm": 5.0}, {"min_x_ohm": 0.1}),
+                ({"min_r_ohm": 5.0, "min_x_ohm": 5.0}, {}),
+                ({"overload_scaling_factor": 0.5, "max_iteration": 1}, {"overload_scaling_factor": 0.1, "max_iteration": 1}),
+                ({"capacitance_scaling_factor": 0.5, "run": "ok_if_no_capacitance"}, {"run": "ok_if_no_capacitance"})]
 FN_KINDS = ["echo", "echo", "echo", "count", "DeviationFromStdType", "SlackGenPlacement", "SlackGenPlacement", "Overload",
             "ImplausibleImpedanceValues"]
 ARG_CHOICES = [None, None, [], ["min_r_ohm"], ["my_option"], ["overload_scaling_factor", "my_option"]]
@@ -130,7 +136,7 @@ def _kwargs_strategy():
     @st.composite
     def kw(draw):
         n = draw(st.sampled_from([0, 1, 1, 1, 2, 2, 3]))
-        if draw(st.integers(0, 7)) == 0:
+        if draw(st.integers(0, 7)) == 7:     # (switches are "on" for the maximal draw: the all-minimal first example stays plain)
             return dict(draw(st.sampled_from(PRESETS)))
         out = {}
         for _ in range(n):
@@ -141,9 +147,9 @@ def _kwargs_strategy():
 
 
 @st.composite
-def _op(draw):
-    kind = draw(st.sampled_from(["new", "new", "register", "register", "diagnose", "diagnose", "diagnose", "diagnose",
-                                 "diagnose", "helper", "report", "report"]))
+def _op(draw, kinds=("new", "new", "register", "register", "diagnose", "diagnose", "diagnose", "diagnose", "diagnose",
+                     "helper", "report", "report")):
+    kind = draw(st.sampled_from(kinds))
     if kind == "new":
         return {"op": "new", "defaults": draw(st.sampled_from([True, True, True, False]))}
     if kind == "register":
@@ -170,27 +176,43 @@ def _case(draw, tier):
         recipe = draw(netgen.grid(PROFILE))
         # shapes netgen draws rarely: the only reference is a slack generator / a generator out of service
         eg = [e for e in recipe["el"] if e["t"] == "ext_grid"]
-        if len(eg) == 1 and draw(st.integers(0, 3)) == 0:
+        if len(eg) == 1 and draw(st.integers(0, 3)) == 3:
             eg[0].pop("va_degree", None)
             eg[0].update(t="gen", p_mw=0.0, slack=True)
-        if draw(st.integers(0, 3)) == 0:
+        if draw(st.integers(0, 3)) == 3:
             gens = [e for e in recipe["el"] if e["t"] == "gen" and not e.get("slack")]
             if gens:
                 draw(st.sampled_from(gens))["in_service"] = False
         nets.append({"recipe": recipe,
                      "stress": draw(st.sampled_from([1, 1, 1, 30, 300])),
                      "zones": draw(st.sampled_from([False, False, True]))})
-    ops = draw(st.lists(_op(), min_size=3, max_size=8))
-    if draw(st.integers(0, 3)) == 0:
-        # leak-free by construction on the unrepaired tree: options only in the last call, no helper (it always passes
-        # options), registrations only on instances without default functions
-        ops = [o for o in ops if o["op"] != "helper"]
-        last = max([i for i, o in enumerate(ops) if o["op"] == "diagnose"], default=-1)
+    n_ops = draw(st.integers(3, 8))
+    ops = draw(st.lists(_op(), min_size=n_ops, max_size=n_ops))
+    clean = draw(st.integers(0, 3)) == 3
+    if clean:
+        ops = [o for o in ops if o["op"] != "helper"]       # the helper always passes options
+    while sum(o["op"] in ("diagnose", "helper") for o in ops) < 2:      # at least two calls
+        ops.append(draw(_op(kinds=("diagnose",))))
+    if clean:
+        # leak-free by construction on the unrepaired tree: options only in the last call, registrations only on
+        # instances without default functions
+        last = max(i for i, o in enumerate(ops) if o["op"] == "diagnose")
         for i, o in enumerate(ops):
             if o["op"] == "diagnose" and i != last:
                 o["kwargs"] = {}
             if o["op"] == "register":
                 o["target"] = "own"
+    if draw(st.integers(0, 4)) == 4:
+        # shape that random op lists reach rarely: instance A diagnoses, instance B diagnoses with other thresholds,
+        # then A reports (the report must still belong to A's call)
+        k1, k2 = draw(st.sampled_from(REPORT_PAIRS))
+        if clean:
+            k1 = {}
+        a, b = draw(st.integers(0, 1)), draw(st.integers(0, 2))
+        mk = lambda kw, j: {"op": "diagnose", "inst": 0 if kw is k1 else 1, "net": j, "kwargs": dict(kw),    # noqa: E731
+                            "report_style": None, "warnings_only": False, "return_result_dict": True}
+        ops = [{"op": "new", "defaults": True}, {"op": "new", "defaults": True}] + ops[:5] + [
+            mk(k1, a), mk(k2, b), {"op": "report", "inst": 0, "compact": draw(st.booleans()), "warnings_only": False}]
     return {"nets": nets, "ops": ops}
 
 
@@ -232,6 +254,9 @@ def _env():
         def report(self, error, results):
             if error is not None:
                 self.out.warning("echo failed: %s" % error)
+                return
+            if results is None:
+                self.out.info("PASSED: echo has nothing to report")
                 return
             self.out.compact("echo: %s" % json.dumps(results, sort_keys=True))
             self.out.detailed("echo detailed: %s" % json.dumps(results, sort_keys=True))
@@ -835,6 +860,7 @@ def _run_history(case, res, env):
                         fail("return/not-None-with-return_result_dict-False", step=step)
                 eff_spec = _fspec(d._functions)
                 eff_kw = dict(d.kwargs)
+                eff_kw.update(explicit)         # (an implementation need not store the options of a call)
                 module_args = dict(env["args_obj"])
                 check_others(before, step, "diagnose_network with options")
                 exp = reference(j, inst, kw_json, explicit, style, wo)
@@ -915,7 +941,8 @@ def _run_history(case, res, env):
         elif kind == "report":
             if not insts:
                 new_instance(True, step)
-            inst = insts[op.get("inst", 0) % len(insts)]
+            cand = [i for i in insts if i["last"] is not None] or insts      # prefer instances that have diagnosed
+            inst = cand[op.get("inst", 0) % len(cand)]
             d = inst["obj"]
             compact, wo = bool(op.get("compact", True)), bool(op.get("warnings_only", False))
             raised = None
@@ -933,6 +960,9 @@ def _run_history(case, res, env):
                 res.label("report:before-diagnose")
             elif last["raised"] is not None:
                 res.label("report:after-raised-call")       # partial results: not specified, not judged
+            elif _fspec(d._functions) != last["spec"]:
+                # a function was registered after the last call: it has no result yet, its report is not specified
+                res.label("report:after-later-registration")
             else:
                 # the report belongs to the instance's last call: same text as a report made right after that call
                 # (replayed with the kwargs / functions that call really used, fresh function objects, fresh net)
